@@ -89,6 +89,9 @@ func init() {
 		},
 		Cases: func(t core.Tier) int { return sizes[t] },
 		Run: func(c *core.Ctx, idx int) {
+			if idx%16 == 5 {
+				c04Twins(c)
+			}
 			for k := 0; k < 8; k++ {
 				s, phost := gen.RandomMaskSpec(c.Rng, gen.AllMods, []float64{0.1, 0.3, 0.5}[c.Rng.Intn(3)])
 				if c.Rng.Intn(6) == 0 && s.Exception {
@@ -145,4 +148,81 @@ func init() {
 			}
 		},
 	})
+}
+
+// c04Twins evaluates rules whose whole texts collide under FastHash and differ
+// only in one value: a parse cache or table keyed by that hash must not mix
+// them up.
+func c04Twins(c *core.Ctx) {
+	type variant struct {
+		prefix, suffix string
+		mk             func(t string) (*gen.Spec, *gen.Req)
+	}
+	vs := []variant{
+		{"||ads.com^$domain=d", ".org", func(t string) (*gen.Spec, *gen.Req) {
+			return &gen.Spec{Pattern: "||ads.com^", Domains: []gen.Val{{Name: "d" + t + ".org"}}},
+				&gen.Req{URL: "http://ads.com/x", Source: "http://d" + t + ".org/", Type: rules.TypeScript}
+		}},
+		{"||ads.com^$ctag=t_", "", func(t string) (*gen.Spec, *gen.Req) {
+			return &gen.Spec{Pattern: "||ads.com^", CTags: []gen.Val{{Name: "t_" + t}}},
+				&gen.Req{URL: "http://ads.com/x", Type: rules.TypeScript, Tags: []string{"t_" + t}}
+		}},
+		{"||ads.com^$client=pc-", "", func(t string) (*gen.Spec, *gen.Req) {
+			return &gen.Spec{Pattern: "||ads.com^", Clients: []gen.Client{{Text: "pc-" + t, Name: "pc-" + t}}},
+				&gen.Req{HostnameReq: true, Host: "ads.com", ClientName: "pc-" + t}
+		}},
+		{"||h", ".com^$denyallow=x.org", func(t string) (*gen.Spec, *gen.Req) {
+			return &gen.Spec{Pattern: "||h" + t + ".com^", DenyAllow: []string{"x.org"}},
+				&gen.Req{HostnameReq: true, Host: "h" + t + ".com"}
+		}},
+	}
+	v := vs[c.Rng.Intn(len(vs))]
+	groups := gen.CollidingTails(v.prefix)
+	if len(groups) == 0 {
+		return
+	}
+	g := groups[c.Rng.Intn(len(groups))]
+	type pair struct {
+		s    *gen.Spec
+		q    *gen.Req
+		r    *rules.NetworkRule
+		text string
+	}
+	var ps []pair
+	for _, t := range g {
+		s, q := v.mk(t)
+		text := s.Render(nil)
+		if text != v.prefix+t+v.suffix {
+			c.Inconclusive("twin-text-not-as-intended")
+
+			return
+		}
+		r, err := rules.NewNetworkRule(text, 1)
+		if err != nil {
+			c.Inconclusive("rule-rejected-by-parser")
+
+			return
+		}
+		ps = append(ps, pair{s, q, r, text})
+	}
+	for _, a := range ps {
+		for _, b := range ps {
+			want := ref.Match(a.s, b.q)
+			if want == ref.DontCare {
+				continue
+			}
+			req := b.q.Build()
+			var got bool
+			w := c04Witness{Rule: a.text, Spec: a.s, Request: b.q, Reference: want == ref.Yes}
+			if c.Guard("NetworkRule.Match", nil, w, func() { got = a.r.Match(req) }) {
+				continue
+			}
+			c.Eval(1)
+			if got != (want == ref.Yes) {
+				w.Got = got
+				c.Violation("hash-colliding-twin-mixed-up", nil, w, "rule %q on request %+v: Match=%v, reference=%v (another rule with a colliding text hash was created before)", a.text, *b.q, got, want == ref.Yes)
+			}
+		}
+	}
+	c.Event("hash_colliding_twin_groups", 1)
 }
